@@ -1,6 +1,6 @@
 // Repro for findings name_escape.md / name_panic.md (property C04).
 // Drop into a scratch copy of /repo as pdf/tests/name_escape_repro.rs and run
-//   CARGO_TARGET_DIR=/verif/.cache/native-target cargo test --offline -p pdf --test name_escape_repro -- --test-threads 1
+//   CARGO_TARGET_DIR=/tmp/serial_leaf_target cargo test --offline -p pdf --test name_escape_repro -- --test-threads 1
 // On the pinned tree all three tests FAIL; with findings/name_escape_fix.diff applied all three pass.
 use pdf::object::NoResolve;
 use pdf::parser::{parse, ParseFlags};
